@@ -17,7 +17,7 @@ from ..streams import ReadOnlySource, StreamProtocolViolation, WriteOnlySink, ma
 from ..strategies import Profile, tree_strategy
 
 ID = "C07"
-PROFILE = Profile("conversation", long_lengths=(126, 127, 128, 129), max_array=2)
+PROFILE = Profile("conversation", long_lengths=(126, 127, 128, 129, 8191, 8192, 8193, 16384), max_array=2)
 RULE = (
     "Hypothesis-generated conversations: 1-6 messages, each a request/response payload class drawn from all 646 (or a "
     "data/nested entity class) with a generated instance, preceded by an instance of its __header_schema__ (request "
